@@ -9,7 +9,7 @@
 // CEQ_TREE_VERSION *and* the version comment at the top of each including .cpp.
 #ifndef VERIF_CEQ_TREE_H
 #define VERIF_CEQ_TREE_H
-#define CEQ_TREE_VERSION 5
+#define CEQ_TREE_VERSION 6
 #include "Simbody.h"
 #include "hcommon.h"
 #include <memory>
@@ -111,10 +111,11 @@ public:
 };
 
 enum MobType { mPin, mSlider, mUniversal, mCylinder, mPlanar, mGimbal, mBushing, mTranslation, mBall, mFree, mScrew,
-               mEllipsoid, mWeld, mNumMob };
+               mEllipsoid, mWeld, mBendStretch, mSphericalCoords, mLineOrientation, mFreeLine, mFunctionBased, mNumMob };
 inline const char* mobName(int t) {
     static const char* n[] = {"Pin", "Slider", "Universal", "Cylinder", "Planar", "Gimbal", "Bushing", "Translation", "Ball",
-                              "Free", "Screw", "Ellipsoid", "Weld"};
+                              "Free", "Screw", "Ellipsoid", "Weld", "BendStretch", "SphericalCoords", "LineOrientation",
+                              "FreeLine", "FunctionBased"};
     return n[t];
 }
 
@@ -125,6 +126,7 @@ struct Model {
     std::vector<MobilizedBody> bodies;   // [0] = Ground
     std::vector<int> parent;             // index into bodies
     std::vector<int> mtype;
+    std::vector<bool> reversed;          // mobilizer built with MobilizedBody::Reverse
     State state;
     Model() : matter(system), forces(system) {}
     int nb() const { return (int)bodies.size(); }
@@ -147,33 +149,53 @@ inline Body::Rigid rbody(vh::Rng& g) {
     return Body::Rigid(MassProperties(m, com, m * UnitInertia(I)));
 }
 
-// maxMobType: restrict the mobilizer palette (e.g. to those with qdot == u)
-inline void addRandomBody(Model& M, vh::Rng& g, int parentIx, int type) {
+// version 6: every mobilizer except Weld is built reversed with probability 1/4 (allowReverse), and the palette has
+// BendStretch, SphericalCoords, LineOrientation, FreeLine and a 2-dof FunctionBased mobilizer (linear functions).
+inline void addRandomBody(Model& M, vh::Rng& g, int parentIx, int type, bool allowReverse = true) {
     Body::Rigid b = rbody(g);
     Transform XPF = rframe(g, g.below(3)), XBM = rframe(g, g.below(3));
     MobilizedBody& p = M.bodies[parentIx];
+    const bool rev = allowReverse && type != mWeld && g.below(4) == 0;
+    const MobilizedBody::Direction dir = rev ? MobilizedBody::Reverse : MobilizedBody::Forward;
     MobilizedBody mb;
     switch (type) {
-    case mPin: mb = MobilizedBody::Pin(p, XPF, b, XBM); break;
-    case mSlider: mb = MobilizedBody::Slider(p, XPF, b, XBM); break;
-    case mUniversal: mb = MobilizedBody::Universal(p, XPF, b, XBM); break;
-    case mCylinder: mb = MobilizedBody::Cylinder(p, XPF, b, XBM); break;
-    case mPlanar: mb = MobilizedBody::Planar(p, XPF, b, XBM); break;
-    case mGimbal: mb = MobilizedBody::Gimbal(p, XPF, b, XBM); break;
-    case mBushing: mb = MobilizedBody::Bushing(p, XPF, b, XBM); break;
-    case mTranslation: mb = MobilizedBody::Translation(p, XPF, b, XBM); break;
-    case mBall: mb = MobilizedBody::Ball(p, XPF, b, XBM); break;
-    case mFree: mb = MobilizedBody::Free(p, XPF, b, XBM); break;
-    case mScrew: mb = MobilizedBody::Screw(p, XPF, b, XBM, g.signedMag(0.2, 0.8)); break;
-    case mEllipsoid: { MobilizedBody::Ellipsoid e(p, XPF, b, XBM); e.setDefaultRadii(Vec3(g.range(0.3, 0.8), g.range(0.3, 0.8), g.range(0.3, 0.8))); mb = e; break; }
+    case mPin: mb = MobilizedBody::Pin(p, XPF, b, XBM, dir); break;
+    case mSlider: mb = MobilizedBody::Slider(p, XPF, b, XBM, dir); break;
+    case mUniversal: mb = MobilizedBody::Universal(p, XPF, b, XBM, dir); break;
+    case mCylinder: mb = MobilizedBody::Cylinder(p, XPF, b, XBM, dir); break;
+    case mPlanar: mb = MobilizedBody::Planar(p, XPF, b, XBM, dir); break;
+    case mGimbal: mb = MobilizedBody::Gimbal(p, XPF, b, XBM, dir); break;
+    case mBushing: mb = MobilizedBody::Bushing(p, XPF, b, XBM, dir); break;
+    case mTranslation: mb = MobilizedBody::Translation(p, XPF, b, XBM, dir); break;
+    case mBall: mb = MobilizedBody::Ball(p, XPF, b, XBM, dir); break;
+    case mFree: mb = MobilizedBody::Free(p, XPF, b, XBM, dir); break;
+    case mScrew: mb = MobilizedBody::Screw(p, XPF, b, XBM, g.signedMag(0.2, 0.8), dir); break;
+    case mEllipsoid: mb = MobilizedBody::Ellipsoid(p, XPF, b, XBM, Vec3(g.range(0.3, 0.8), g.range(0.3, 0.8), g.range(0.3, 0.8)), dir); break;
+    case mBendStretch: mb = MobilizedBody::BendStretch(p, XPF, b, XBM, dir); break;
+    case mSphericalCoords: mb = MobilizedBody::SphericalCoords(p, XPF, b, XBM, dir); break;
+    case mLineOrientation: mb = MobilizedBody::LineOrientation(p, XPF, b, XBM, dir); break;
+    case mFreeLine: mb = MobilizedBody::FreeLine(p, XPF, b, XBM, dir); break;
+    case mFunctionBased: {
+        // 2 mobilities; the six spatial coordinates (3 body-fixed XYZ angles, 3 translations) are linear in (q0,q1)
+        std::vector<const Function*> fn; std::vector<std::vector<int> > ci;
+        auto lin2 = [&](double a0, double a1, double c) { Vector co(3); co[0] = a0; co[1] = a1; co[2] = c; return new Function::Linear(co); };
+        // rotation functions in the "diagonal" pattern theta_x(q0), theta_y(q1), theta_z = offset: the coupled patterns run
+        // into the known FunctionBased HDot defects (known findings of C04: sysJ.bias.fd.FunctionBased.*)
+        fn.push_back(lin2(1.0, 0.0, 0.0));  ci.push_back({0, 1});
+        fn.push_back(lin2(0.0, g.signedMag(0.4, 1.2), 0.0)); ci.push_back({0, 1});
+        fn.push_back(lin2(0.0, 0.0, g.range(-0.3, 0.3))); ci.push_back({0, 1});
+        fn.push_back(lin2(0.0, 1.0, 0.0));  ci.push_back({0, 1});
+        fn.push_back(lin2(g.range(-0.5, 0.5), 0.0, 0.2)); ci.push_back({0, 1});
+        fn.push_back(lin2(0.2, g.range(-0.5, 0.5), 0.0)); ci.push_back({0, 1});
+        mb = MobilizedBody::FunctionBased(p, XPF, b, XBM, 2, fn, ci, dir); break; }
     default: mb = MobilizedBody::Weld(p, XPF, b, XBM); break;
     }
-    M.bodies.push_back(mb); M.parent.push_back(parentIx); M.mtype.push_back(type);
+    M.bodies.push_back(mb); M.parent.push_back(parentIx); M.mtype.push_back(type); M.reversed.push_back(rev);
 }
 
 // shape: 0 chain, 1 star, 2 random
 inline void buildTree(Model& M, vh::Rng& g, int nBodies, const std::vector<int>& palette) {
-    M.bodies.push_back(M.matter.Ground()); M.parent.push_back(0); M.mtype.push_back(-1);
+    M.bodies.push_back(M.matter.Ground()); M.parent.push_back(0); M.mtype.push_back(-1); M.reversed.push_back(false);
     int shape = g.below(3);
     for (int i = 0; i < nBodies; ++i) {
         int p = shape == 0 ? (int)M.bodies.size() - 1 : shape == 1 ? (i == 0 ? 0 : 1 + g.below(std::min(i, 2))) : g.below((int)M.bodies.size());
@@ -183,7 +205,8 @@ inline void buildTree(Model& M, vh::Rng& g, int nBodies, const std::vector<int>&
 }
 
 inline std::vector<int> fullPalette() {
-    return {mPin, mPin, mSlider, mUniversal, mCylinder, mPlanar, mGimbal, mBushing, mTranslation, mBall, mBall, mFree, mFree, mScrew, mEllipsoid, mWeld};
+    return {mPin, mPin, mSlider, mUniversal, mCylinder, mPlanar, mGimbal, mBushing, mTranslation, mBall, mBall, mFree, mFree, mScrew, mEllipsoid, mWeld,
+            mBendStretch, mSphericalCoords, mLineOrientation, mFreeLine, mFunctionBased};
 }
 inline std::vector<int> qdotIsUPalette() { // mobilizers whose N is the identity (qdot == u)
     return {mPin, mSlider, mUniversal, mCylinder, mPlanar, mTranslation, mScrew};
@@ -224,7 +247,8 @@ inline int pickMobilizer(const Model& M, vh::Rng& g, bool needIdentityN = false)
     return c[g.below((int)c.size())];
 }
 inline int nuOfType(int t) {
-    switch (t) { case mPin: case mSlider: case mScrew: return 1; case mUniversal: case mCylinder: return 2;
+    switch (t) { case mPin: case mSlider: case mScrew: return 1; case mUniversal: case mCylinder: case mBendStretch: case mLineOrientation: case mFunctionBased: return 2;
+                 case mSphericalCoords: return 3; case mFreeLine: return 5;
                  case mPlanar: case mGimbal: case mTranslation: case mBall: case mEllipsoid: return 3;
                  case mBushing: case mFree: return 6; default: return 0; }
 }
@@ -359,15 +383,31 @@ inline void randomState(Model& M, vh::Rng& g, double qa = 1.0, double ua = 1.0) 
     for (int i = 0; i < q.size(); ++i) q[i] = g.range(-qa, qa);
     for (int i = 0; i < u.size(); ++i) u[i] = g.range(-ua, ua);
     s.updQ() = q; s.updU() = u;
+    // keep coordinates away from the mobilizers' own singular configurations
+    for (int b = 1; b < M.nb(); ++b) {
+        const int q0 = (int)M.bodies[b].getFirstQIndex(s);
+        if (M.mtype[b] == mBendStretch) s.updQ()[q0 + 1] = 0.4 + std::abs(s.getQ()[q0 + 1]);         // stretch > 0
+        if (M.mtype[b] == mSphericalCoords) { s.updQ()[q0 + 1] = 0.4 + std::abs(s.getQ()[q0 + 1]);   // zenith in [0.4,1.4]
+                                              s.updQ()[q0 + 2] = 0.4 + std::abs(s.getQ()[q0 + 2]); } // radius > 0
+    }
     M.system.realize(s, Stage::Position);
     M.matter.normalizeQuaternions(s);     // public API; only touches quaternion q's
 }
 
-inline void finishTopology(Model& M, vh::Rng& g, bool allowEuler = true) {
+inline bool hasLineMobilizer(const Model& M) { for (int t : M.mtype) if (t == mLineOrientation || t == mFreeLine) return true; return false; }
+// LineOrientation / FreeLine in quaternion mode have known kinematic defects of their own (known findings C03.*Line.quaternion.*,
+// C04 sysJ.bias.fd.reversedLine.quaternion): trees containing them are modelled with Euler angles unless the caller asks
+// for the quaternion class explicitly (allowLineQuat), which it must then tag and key separately.
+inline void finishTopology(Model& M, vh::Rng& g, bool allowEuler = true, bool allowLineQuat = false) {
     M.state = M.system.realizeTopology();
-    if (allowEuler && g.below(4) == 0) M.matter.setUseEulerAngles(M.state, true);
+    bool euler = allowEuler && g.below(4) == 0;
+    if (hasLineMobilizer(M) && !allowLineQuat) euler = true;
+    if (euler) M.matter.setUseEulerAngles(M.state, true);
     M.system.realizeModel(M.state);
 }
+
+// one D tag per body: mobilizer type and direction (counted into the evidence)
+inline void tagBodies(const Model& M) { for (int b = 1; b < M.nb(); ++b) vh::D(std::string("mob.") + mobName(M.mtype[b]) + (M.reversed[b] ? ".rev" : "")); }
 
 inline double maxAbs(const Vector& v) { double m = 0; for (int i = 0; i < v.size(); ++i) { double a = std::abs(v[i]); if (std::isnan(a)) return NAN; if (a > m) m = a; } return m; } // NaN propagates
 inline Vector rvector(vh::Rng& g, int n, double a = 1.0) { Vector v(n); for (int i = 0; i < n; ++i) v[i] = g.range(-a, a); return v; }
